@@ -66,7 +66,7 @@ package ggql
 //@   requires t != nil && rt != nil
 //@   requires[unlocked] !held(t.mu)
 //@   results meta, err
-//@   assumes aserr(err) == nil
+//@   ensures[err-fresh] aserr(err) != nil ==> fresh(aserr(err)) && allocated(aserr(err))
 //@   ensures[bound-kept]{C08} old(t.meta) != nil ==> t.meta == old(t.meta) && meta == old(t.meta) && err == nil
 //@   ensures[bound-only-by-rule]{C08} old(t.meta) == nil && t.meta != nil ==> t.meta == rt && ((exists i int {t.Dirs[i]} :: 0 <= i && i < len(t.Dirs) && goUse(t.Dirs[i]) && goTypeArgMatches(t.Dirs[i], baseT(rt))) || t.N == baseT(rt).Name())
 //@   ensures[result]{C08} meta == t.meta && (err == nil <==> t.meta != nil)
@@ -105,7 +105,7 @@ package ggql
 //@   requires[reflection-last]{C02} !is(obj, Resolver) && root.AnyResolver == nil
 //@   requires t != nil ==> ptrval(t) != 0
 //@   requires[unlocked] onlyRegistryLock(root)
-//@   assumes errsFresh(ea)
+//@   ensures[errs-fresh]{C06} errsFresh(ea)
 //@   ensures[locks-balanced] held == old(held)
 //@   assigns fresh, H_Object.meta, H_FieldDef.goField, H_FieldDef.method, H_FieldDef.args, held, #res
 //@   loop 0: invariant[typed] t != nil ==> ptrval(t) != 0
